@@ -31,6 +31,20 @@ def table_for(prog, A, fids, effect_pred, write_pred=None):
                 continue
             gs = sorted(guards.guard_set(b, S, ev[6]))
             rows.append([eff, gs])
+        # predicate closures of this function (`.any(|x| x.a == y)`, `.filter(|x| ..)`, `.retain(|x| ..)`): what they test
+        if b.kind != "Closure":
+            for cid, cb in sorted(prog.bodies.items()):
+                if cb.kind == "Closure" and cb.parent and (cb.parent == fid or cb.parent.startswith(fid + "::{closure")) and cb.locals and cb.locals[0]["ty"] == "bool":
+                    try:
+                        Sc = A.summary(cid)
+                    except RecursionError:
+                        Sc = None
+                    if Sc is None:
+                        continue
+                    dsc, pos = guards.bool_desc(cb, Sc, 0, 2)
+                    if dsc in ("flag", "expr"):
+                        continue
+                    rows.append(["predicate closure", [dsc if pos else "!(" + dsc + ")"]])
         if rows:
             key = re.sub(r"\{closure#\d+\}", "{closure}", mir.strip_generics(fid))     # closure numbering is positional
             out.setdefault(key, []).extend(rows)
@@ -91,6 +105,18 @@ def compare(chk, rule, section, cur, what, floor, row_filter=None, fn_filter=Non
                 missing.append(r)
         if missing or extra:
             diffs[fn] = [missing, extra]
+    # same predicates, different combination (`a && b` turned into `a || b`, a flipped test whose negation also occurs on another
+    # path): the predicate *sets* agree, the reaching conditions do not
+    oforms0 = (load_oracle("_formulas") or {})
+    for fn in sorted(set(cur) & set(ora)):
+        for r in cur[fn]:
+            if r in ora[fn]:
+                fo = oforms0.get(fn, {}).get("\x1f".join(r[1]))
+                fc = guards.FORMULAS.get((fn, tuple(r[1])))
+                if fo is not None and fc is not None and guards.equivalent(fo, fc) is False:
+                    d = diffs.setdefault(fn, [[], []])
+                    d[0].append(json.dumps([r[0], r[1] + ["(reviewed combination)"]]))
+                    d[1].append(json.dumps([r[0], r[1] + ["(combined differently: and/or/negation structure of the condition changed)"]]))
     # re-coded conditions: a row whose predicate set differs but whose reaching condition is logically equivalent to the
     # reviewed one (if/else-if chain vs match, guard clause vs nesting, flattened if-lets) is the same decision
     oforms = (load_oracle("_formulas") or {})
